@@ -93,6 +93,11 @@ def getDBusEndpoints(reactor, busAddress, client=True):
                 path = d['tmpdir'] + '/dbus-' + str(os.getpid())
             elif 'abstract' in d:
                 path = '\0' + d['abstract']
+            else:
+                # none of the keys this implementation can connect by
+                # (e.g. unix:runtime=yes): skip the entry rather than
+                # reuse the previous entry's socket path
+                continue
 
             if client:
                 ep = UNIXClientEndpoint(reactor, path=path)
